@@ -15,6 +15,17 @@ NAME = "Codec"
 
 SIZEOF = {"int32_t": 4, "uint32_t": 4, "int": 4, "int64_t": 8, "int16_t": 2, "char": 1}
 
+# Registry for vlib/gen/codecskel.py (statement skeletons): which condition node of which translation unit became
+# which generated guard / input of a generated decision tree.  Key: "<tu>:<clang node id>"; filled by generate()
+# as it locates the sites (same cached AST dump, so the ids are the ones codecskel.py sees).  Output of this module
+# does not depend on it.
+SITES = {}
+
+
+def _site(tu, node, name):
+    if tu is not None and node is not None and node.get("id"):
+        SITES["%s:%s" % (tu, node["id"])] = name
+
 
 # ----------------------------------------------------------------------------- helpers
 
@@ -135,7 +146,7 @@ def while_stmt(fn):
     return ws[0]
 
 
-def decision_tree(fn, var, conds):
+def decision_tree(fn, var, conds, tu=None):
     """symbolic execution of a body made of `T var = e;`, `var = e;`, `*var = e;`, if/else, declarations
     without effect on `var`, and `return var;`: the value of `var` at the end as a Lean term.
     `conds`: list of (recogniser, lean_name)."""
@@ -182,6 +193,7 @@ def decision_tree(fn, var, conds):
             elif k == "IfStmt":
                 ks = kids(s)
                 c = cond_of(ks[0])
+                _site(tu, ks[0], unparen(c))
                 t = run([ks[1]], cur)
                 e = run([ks[2]], cur) if len(ks) > 2 else cur
                 cur = "(if %s then %s else %s)" % (c, t, e)
@@ -299,9 +311,10 @@ NAT_CONSTS_ = {"kHeaderLen": "kHeaderLen", "kChecksumLen": "kChecksumLen", "kMax
               "kMinMessageLen": "kMinMessageLen"}
 
 
-def on_message_guards(out, fn, readable_key, min_is_param):
+def on_message_guards(out, fn, readable_key, min_is_param, tu=None):
     """the three guards of the `while` loop of onMessage"""
     w = while_stmt(fn)
+    _site(tu, kids(w)[0], "headerAvailable")
     minp = [("minLen", "Nat")] if min_is_param else []
     NAT_CONSTS = dict(NAT_CONSTS_, kMinMessageLen="minLen" if min_is_param else "kMinMessageLen")
     INT_CONSTS = dict(INT_CONSTS_, kMinMessageLen="(minLen : Int)" if min_is_param else "(kMinMessageLen : Int)")
@@ -313,6 +326,7 @@ def on_message_guards(out, fn, readable_key, min_is_param):
     if len(ifs) != 1:
         raise ExtractError("onMessage: the length range test was not found")
     rng = ifs[0]
+    _site(tu, if_cond(rng), "lenOutOfRange")
     t = Tr({"len": "len"}, INT_CONSTS, int_mode=True)
     out.append(prop_def("lenOutOfRange", [("len", "Int")] + minp, unparen(t.expr(if_cond(rng))),
                         "`onMessage`: the length range test (`len` is the signed 32-bit length field)"))
@@ -327,6 +341,7 @@ def on_message_guards(out, fn, readable_key, min_is_param):
     avail = kids(rng)[2]
     if not mentions(if_cond(avail), "readableBytes"):
         raise ExtractError("onMessage: the `else if` does not test readableBytes()")
+    _site(tu, if_cond(avail), "frameAvailable")
     t = Tr({readable_key: "(readable : Int)", "len": "len"}, INT_CONSTS, int_mode=True)
     out.append(prop_def("frameAvailable", [("readable", "Nat"), ("len", "Int")], unparen(t.expr(if_cond(avail))),
                         "`onMessage`: the whole frame is readable (int sum converted to size_t: value-preserving "
@@ -361,6 +376,7 @@ def on_message_guards(out, fn, readable_key, min_is_param):
 
 
 def generate():
+    SITES.clear()
     tu = "muduo/net/protobuf/ProtobufCodecLite.cc"
     docs = ast_dump(tu, "muduo::net::ProtobufCodecLite")
     rec = record(docs, "ProtobufCodecLite")
@@ -385,7 +401,7 @@ def generate():
     table, dflt = error_string_table(top_method(docs, "errorCodeToString"), tu, enum)
     emit_enum(out, enum, table, dflt)
 
-    on_message_guards(out, top_method(docs, "onMessage"), "buf.readableBytes()", True)
+    on_message_guards(out, top_method(docs, "onMessage"), "buf.readableBytes()", True, tu=tu)
 
     # validateChecksum: which bytes are summed, where the stored value is
     vc = top_method(docs, "validateChecksum")
@@ -433,7 +449,7 @@ def generate():
                "def payloadLen (len : Int) (tagSize : Int) : Int := %s\n" % unparen(t.expr(kids(dlen[0])[-1])))
     tree = decision_tree(pf, "error", [(is_call_to("validateChecksum"), "checksumOk"),
                                        (is_eq_zero_call("memcmp"), "tagOk"),
-                                       (is_call_to("parseFromBuffer"), "payloadOk")])
+                                       (is_call_to("parseFromBuffer"), "payloadOk")], tu=tu)
     out.append("/-- `parse`: the order of the tests and what each failure reports -/\n"
                "def parseDecision (checksumOk tagOk payloadOk : Bool) : ErrorCode :=\n  %s\n" % unparen(tree))
     # RpcCodec's tag (the generated rpc.pb.h is not needed for this declaration)
@@ -462,7 +478,7 @@ def generate_example():
     enum = enum_constants(rec, "ErrorCode")
     table, dflt = error_string_table(top_method(docs, "errorCodeToString"), tu, enum)
     emit_enum(out, enum, table, dflt)
-    on_message_guards(out, top_method(docs, "onMessage"), "buf.readableBytes()", False)
+    on_message_guards(out, top_method(docs, "onMessage"), "buf.readableBytes()", False, tu=tu)
 
     pf = top_method(docs, "parse")
     consts = {"kHeaderLen": "(kHeaderLen : Int)"}
@@ -526,7 +542,7 @@ def generate_example():
         return n.get("kind") == "CXXMemberCallExpr" and callee_name(n) == "ParseFromArray"
 
     tree = decision_tree(pf, "error", [(is_sum_eq, "checksumOk"), (is_namelen, "nameLenOk"), (is_parse, "payloadOk"),
-                                       (is_message, "typeKnown")])
+                                       (is_message, "typeKnown")], tu=tu)
     if tree is None:
         raise ExtractError("example parse: no assignment to *error found")
     out.append("/-- `parse`: the order of the tests and what each failure reports (`*error` is `kNoError` on entry) -/\n"
